@@ -42,13 +42,16 @@ def build_model(run):
     """compile Gen_*.v (if coq_props has not done so) and the per-run extraction; returns the driver executable"""
     d = os.path.join(run.scratch, "sysmodel")
     os.makedirs(d, exist_ok=True)
+    gdir = run.gen_models
     for g in ("Gen_Config", "Gen_Filter", "Gen_Expand", "Gen_Cmdline", "Gen_Output", "Gen_Errors", "Gen_Sys", "Gen_Ds"):
-        if not os.path.exists(os.path.join(run.gen, g + ".vo")):
-            p = sh(["timeout", "300", "coqc", "-q", "-Q", THEORIES, "Snoopy", "-Q", run.gen, "Gen", os.path.join(run.gen, g + ".v")], check=False)
+        if not os.path.exists(os.path.join(gdir, g + ".v")):
+            raise CheckError("%s.v is not available for the composed model" % g)
+        if not os.path.exists(os.path.join(gdir, g + ".vo")):
+            p = sh(["timeout", "300", "coqc", "-q", "-Q", THEORIES, "Snoopy", "-Q", gdir, "Gen", os.path.join(gdir, g + ".v")], check=False)
             if p.returncode != 0:
                 raise CheckError("%s.v does not compile:\n%s" % (g, p.stdout[-2000:]))
     shutil.copy(os.path.join(VERIF, "coq", "extract", "run", "Extract_system_run.v"), os.path.join(d, "Extract_system_run.v"))
-    sh(["timeout", "600", "coqc", "-q", "-Q", THEORIES, "Snoopy", "-Q", run.gen, "Gen", "Extract_system_run.v"], cwd=d)
+    sh(["timeout", "600", "coqc", "-q", "-Q", THEORIES, "Snoopy", "-Q", gdir, "Gen", "Extract_system_run.v"], cwd=d)
     with open(os.path.join(d, "main.ml"), "w") as f:
         f.write("open Model_system\n" + open(os.path.join(VERIF, "ocaml", "common.ml")).read() + open(os.path.join(VERIF, "ocaml", "drv_system.ml")).read())
     exe = os.path.join(d, "drv_system")
